@@ -61,3 +61,21 @@ package verifspec
 //@   ensures isInf(f) ==> isNaN(frac)
 //@   ensures !isInf(f) && !isNaN(f) ==> fpeq(frac, f - rtz(f)) && signbit(frac) == signbit(f)
 //@   ensures isNaN(f) ==> isNaN(frac)
+
+// Ldexp(frac, exp) = frac x 2^exp.  The reference is the upstream implementation (math.ldexp, pure Go, compiled
+// unchanged); `ldexpOrig` names its result.  What is assumed of it (listed in the evidence): it rounds once, so
+// whenever 2^exp is itself a double the result is the IEEE product frac * 2^exp; and Ldexp(+-0, exp) = +-0.
+// pow2(n) is 2^n as a double for -1074 <= n <= 1023 (the library model of Math.pow(2, n) refers to it).
+//@ pure ldexpOrig(f float64, n int) float64
+//@ pure pow2(n int) float64
+//@ axiom ldexpScale: all(floatv(f), n, -1074 <= n && n <= 1023 ==> same(ldexpOrig(f, n), f * pow2(n)))
+//@ axiom ldexpZero: all(floatv(f), n, isZero(f) ==> same(ldexpOrig(f, n), f))
+//@ extern natives:math.ldexp
+//@   param frac exp
+//@   assigns nothing
+//@   ensures same(result, ldexpOrig(frac, exp))
+//@ func natives:math.Ldexp
+//@ property C13
+//@   word 32
+//@   initval natives:math._zero natives:math.negInf natives:math.posInf natives:math.nan
+//@   ensures same(result, ldexpOrig(frac, exp))
